@@ -158,6 +158,30 @@ View == <<content, dirs, last, edits, builds>>
 \* edits after the last build, so all shorter histories that end in a build are covered too)
 Emit == Len(hist) < MaxHist
         \/ (PrintT(<<"B", ToJson([root |-> InOrder(Root), init |-> InitContent, steps |-> hist])>>) /\ FALSE)
+\* directed generation, the "join" family: histories in which a header that the kernel source does not
+\* include JOINS the include graph through an edit of an already included header (directly, or behind
+\* another joining header: h1 -> h2 -> h3), is built, and is then edited / leaves / rejoins, with a build
+\* after every phase.  Shape (prefix closed, so TLC prunes while it enumerates):
+\*   build ; 1-2 AddInclude ; build ; one of {SetVal of a joined header, RemoveInclude, AddInclude} ; build ;
+\*   one of {SetVal of a joined header, AddInclude right after a RemoveInclude (rejoin)} ; build
+NonRoot == Headers \ Root
+RECURSIVE TrailingEdits(_)
+TrailingEdits(h) == IF h = <<>> \/ h[Len(h)].a = "build" THEN 0 ELSE 1 + TrailingEdits(SubSeq(h, 1, Len(h) - 1))
+JoinShape ==
+  \/ hist = <<>>
+  \/ LET n == Len(hist)
+         s == hist[n]
+         t == TrailingEdits(hist)
+     IN IF s.a = "build" THEN builds = 1 \/ hist[n - 1].a # "build"
+        ELSE CASE builds = 0 -> FALSE
+               [] builds = 1 -> /\ s.a = "addinc" /\ t <= 2
+                                /\ t = 2 => Idx(hist[n - 1].h) * 10 + Idx(hist[n - 1].x) < Idx(s.h) * 10 + Idx(s.x)   \* one order of two additions
+               [] builds = 2 -> t = 1 /\ \/ s.a = "setval" /\ s.h \in NonRoot \cap Included(content)
+                                         \/ s.a \in {"rminc", "addinc"}
+               [] builds = 3 -> t = 1 /\ \/ s.a = "setval" /\ s.h \in NonRoot \cap Included(content)
+                                         \/ s.a = "addinc" /\ hist[n - 2].a = "rminc"
+               [] OTHER -> FALSE
+EmitJoin == JoinShape /\ (builds < 4 \/ (PrintT(<<"B", ToJson([root |-> InOrder(Root), init |-> InitContent, steps |-> hist])>>) /\ FALSE))
 \* directed generation: with Variant = "found" every shortest history on which the fold of the code as
 \* found diverges is printed (and cut); the replay runs them on the real code (prediction: exp, as always)
 EmitDiverged == IF last.outcome = "diverged"
